@@ -44,9 +44,13 @@ func runFault(c *hx.Ctx, seq *Seq, counts []int, K int) {
 	c.Count(fmt.Sprintf("fault/%s/%d/%v/%v/%s", kind, j, seq.NewState, seq.Boundary, seq.Engine), true)
 	c.Hist["fault-in:"+kind]++
 	where := fmt.Sprintf("commit %d of op %d (%s) fails [%s, newState=%v]: ", j, opI, kind, seq.Engine, seq.NewState)
+	detail := ""
 	classFor := func(check string) string {
 		enc, _ := w.decodeImage(w.inner)
 		switch {
+		case strings.Contains(kind, "restart") && strings.Contains(detail, "initialize the running event filter"):
+			// a direct write of the filter initialisation failed: the init error is sticky for this process
+			return "failed-restart-init-write:filter-init-error-sticky"
 		case kind == "revert" && check == "event-query-differs":
 			return "failed-revert:running-filter-cleared-in-memory"
 		case kind == "store" && atWindowEnd:
@@ -82,7 +86,7 @@ func runFault(c *hx.Ctx, seq *Seq, counts []int, K int) {
 				c.Hist["fault-not-reached"]++
 				return
 			}
-			if err == nil && o.K != "G" {
+			if err == nil && o.K != "G" && o.K != "U" {
 				c.Violation("failed-"+kind+":error-swallowed", where+"the operation returned nil although its commit failed", cs, false)
 				return
 			}
@@ -91,6 +95,7 @@ func runFault(c *hx.Ctx, seq *Seq, counts []int, K int) {
 			continue
 		}
 		if idx > opI && o.K == "S" && err != nil {
+			detail = err.Error()
 			c.Violation(classFor("later-store-fails"), where+fmt.Sprintf("later store (op %d) fails on the same process: %v", idx, err), cs, false)
 			return
 		}
@@ -102,26 +107,21 @@ func runFault(c *hx.Ctx, seq *Seq, counts []int, K int) {
 			return
 		}
 		evOK, evWhat := eventsOK(w.t, w.inner, w.lo)
+		detail = evWhat
 		ml := or.Ask(fmt.Sprintf("fault %x %d ; ", W, K)+strings.Join(w.mops, " ; "), 1)[0]
 		mp := strings.Split(ml, " # ")
 		if len(mp) != 3 {
 			hx.Fatalf("oracle reply %q", ml)
 		}
 		enc, _ := w.decodeImage(w.inner)
-		if !evOK && !strings.Contains(enc, "snap=-") {
+		if !evOK && !strings.Contains(enc, "snap=-") && !(kind == "store" && snapshotAfter(seq.Ops, opI)) &&
+			!strings.Contains(evWhat, "initialize the running event filter") {
 			// is it the disk (a fresh process is wrong too) and is a persisted snapshot involved? Then it is
 			// the stale-snapshot defect (crash class), not a memory/disk disagreement of this process
 			if okFresh, _ := eventsOK(chain.NewNode(w.inner, seq.NewState, w.opts()...), w.inner, w.lo); !okFresh {
 				c.Violation("crash:stale-filter-snapshot:event-false-negatives", where+fmt.Sprintf("after op %d a fresh process and the restarted process both miss events: %s", idx, evWhat), cs, false)
 				return
 			}
-		}
-		if w.initWrote {
-			c.Hist["process-init-wrote-a-window(unmodelled)"]++
-			if !evOK {
-				c.Violation(classFor("event-query-differs"), where+fmt.Sprintf("after op %d the same process: %s", idx, evWhat), cs, false)
-			}
-			return
 		}
 		if !evOK && strings.Fields(mp[1])[0] == "1" {
 			// the model's running filter covers the chain: is the wrong answer served by the LRU cache of
@@ -160,6 +160,7 @@ func runFault(c *hx.Ctx, seq *Seq, counts []int, K int) {
 	pred := strings.Fields(strings.Split(ml, " # ")[1])
 	serr := w.t.Store(bi.built)
 	if serr != nil {
+		detail = serr.Error()
 		_ = w.s.BC.RevertHead()
 		c.Violation(classFor("next-store-fails"), where+"at the end of the sequence the next block does not store on the same process: "+serr.Error(), cs, false)
 	}
